@@ -20,6 +20,8 @@ EXTRA = ["Title: a \"q\" & <1>\nAuthor: x's <2>\nKey & <3>: v\ncss: a\"b.css\n\n
          "Title: {>>c<<} `<<` $<$\n\n# {~~x~>y~~} #\n\n| {++a++} | `<<` |\n|---|---|\n| $<$ | b |\n",
          "[^f]: note & <1> {>>c<<}\n\nx[^f] [#c;] *[>ab]*\n\n[#c]: cite <2> &\n\n[>ab]: A & <3>\n\nab\n", "<http://a.b/?x=1&y=<2>> <a&b@c.d>\n",
          "[>AT&T]: American Telephone & Telegraph\n\n[?R&D]: research & <4> development\n\nAT&T and [>AT&T] and [>AT&T] again, [?R&D] and [?R&D], note[^n] and again[^n], cite[#c&d] and [#c&d].\n\n[^n]: N & <1>\n\n[#c&d]: C & <2>\n",
+         # e-mail autolinks (written obfuscated, character by character) with letters beyond ASCII in the host name, in a paragraph and in a heading (navigation document)
+         "<info@m\u00fcnchen.example> and <mailto:x@caf\u00e9.example>\n\n# Mail <post@\u4e2d\u6587.example> #\n\ntext <a&b@\u00e9.d>\n",
          # image addresses whose reserved characters come AFTER the last dot (query strings): every place a package derives something from the address
          "![c](img/chart.png?rev=3&size=large) ![d](http://x.y/render.cgi?a=1&b=<2>) ![e](pic.v1.p&g) ![f](a.b<c)\n\n![g][r]\n\n[r]: img/r.jpeg?x=1&y=2 \"T & t\"\n",
          "Title: T & \"1\"\nBase Header Level: 2\nLanguage: de\nAuthor: A & B\nDate: 2020 <x>\nKeywords: a, b & c\nCopyright: (c) & <y>\nuuid: 1&2\n\n# Caf\u00e0\n\ntext\u00e0\n"] + \
